@@ -381,6 +381,20 @@ func (s *Server) VerifLockMode() string {
 	return l.modes[id]
 }
 
+// VerifLuaPool reports the state of the script interpreter pool: interpreters
+// accounted for (created and not pruned), idle interpreters in the pool, and
+// how many of the idle ones are distinct objects.
+func (s *Server) VerifLuaPool() (total, idle, distinct int) {
+	pl := s.luapool
+	pl.m.Lock()
+	defer pl.m.Unlock()
+	seen := map[*lua.LState]bool{}
+	for _, L := range pl.saved {
+		seen[L] = true
+	}
+	return pl.total, len(pl.saved), len(seen)
+}
+
 // VerifLuaGlobals enumerates, for every idle interpreter of the script pool,
 // everything reachable from the script's global environment: "name:type" for
 // each global, "table.name:type" for members of global tables (recursively),
